@@ -22,11 +22,11 @@ func init() {
 		Cases: func(tier string) int {
 			switch tier {
 			case "thorough":
-				return 1000000
+				return 3000000
 			case "race":
 				return 20000
 			}
-			return 150000
+			return 260000
 		},
 		Run:            c13Run,
 		Floor:          func(tier string) int { return 3000 },
